@@ -854,30 +854,40 @@ fn force_https_thread(monitor: MonitorConfig) -> Result<(), Box<dyn std::error::
     let socket = TcpListener::bind("0.0.0.0:80")?;
 
     for mut stream in socket.incoming().flatten() {
-        let addr = stream.peer_addr()?;
-        let request = Request::from_stream(&mut stream, addr)?;
-
-        let response = if let Some(host) = request.headers.get(&HeaderType::Host) {
-            Response::empty(StatusCode::MovedPermanently)
-                .with_header(
-                    HeaderType::Location,
-                    format!("https://{}{}", host, request.uri),
-                )
-                .with_header(HeaderType::Connection, "Close")
-        } else {
-            Response::empty(StatusCode::OK)
-                .with_bytes(b"<h1>Please access over HTTPS</h1>")
-                .with_header(HeaderType::ContentLength, "33")
-                .with_header(HeaderType::Connection, "Close")
-        };
-
-        let response_bytes: Vec<u8> = response.into();
-        stream.write_all(&response_bytes)?;
-
-        monitor.send(Event::new(EventType::HTTPSRedirect).with_peer(addr));
+        // An error on one connection (a malformed request, a client which disconnects before sending
+        //   one) only ends that connection, it must not end the redirect thread.
+        if let Ok(addr) = force_https_redirect(&mut stream) {
+            monitor.send(Event::new(EventType::HTTPSRedirect).with_peer(addr));
+        }
     }
 
     Ok(())
+}
+
+/// Reads one request from the insecure stream and answers it with a redirect to HTTPS.
+#[cfg(feature = "tls")]
+fn force_https_redirect(stream: &mut TcpStream) -> Result<SocketAddr, Box<dyn std::error::Error>> {
+    let addr = stream.peer_addr()?;
+    let request = Request::from_stream(stream, addr)?;
+
+    let response = if let Some(host) = request.headers.get(&HeaderType::Host) {
+        Response::empty(StatusCode::MovedPermanently)
+            .with_header(
+                HeaderType::Location,
+                format!("https://{}{}", host, request.uri),
+            )
+            .with_header(HeaderType::Connection, "Close")
+    } else {
+        Response::empty(StatusCode::OK)
+            .with_bytes(b"<h1>Please access over HTTPS</h1>")
+            .with_header(HeaderType::ContentLength, "33")
+            .with_header(HeaderType::Connection, "Close")
+    };
+
+    let response_bytes: Vec<u8> = response.into();
+    stream.write_all(&response_bytes)?;
+
+    Ok(addr)
 }
 
 /// The default error handler for every Humphrey app.
